@@ -145,6 +145,150 @@ FUNC_WRAPPERS = {
 }
 
 
+def expand_wrapper_decorators(tree):
+    """N24.  A module-level decorator of the plain wrapper form
+
+        def deco(method):
+            @functools.wraps(method)            # optional
+            def wrapper(self, *args, **kwds):   # or (*args, **kwds)
+                PRE
+                with ...:                       # any nesting of with / try
+                    return method(self, *args, **kwds)
+            return wrapper
+
+    applied (as the only unknown decorator) to a function of the same
+    module: the function's body becomes the wrapper's body with the one
+    `return method(...)` replaced by the original body (a `return` in it
+    leaves through the same with / finally blocks either way).  Anything
+    else is left alone -- the index then refuses the unknown decorator."""
+    import copy
+    decos = {}
+    for st in tree.body:
+        if not (isinstance(st, ast.FunctionDef) and not st.decorator_list
+                and len(st.args.args) == 1 and not st.args.vararg and
+                not st.args.kwarg and not st.args.kwonlyargs):
+            continue
+        body = [b for b in st.body if not (isinstance(b, ast.Expr) and
+                                           isinstance(b.value, ast.Constant))]
+        if len(body) != 2 or not isinstance(body[0], ast.FunctionDef) or \
+                not (isinstance(body[1], ast.Return) and isinstance(
+                    body[1].value, ast.Name) and
+                    body[1].value.id == body[0].name):
+            continue
+        w = body[0]
+        mname = st.args.args[0].arg
+        if any(not (isinstance(d, ast.Call) and ast.unparse(d.func) in (
+                'functools.wraps', 'wraps')) for d in w.decorator_list):
+            continue
+        a = w.args
+        if a.vararg is None or a.kwarg is None or a.kwonlyargs or \
+                a.defaults or len(a.args) > 1:
+            continue
+        want = ([a.args[0].arg] if a.args else [])
+        calls = [x for x in ast.walk(w) if isinstance(x, ast.Call) and
+                 isinstance(x.func, ast.Name) and x.func.id == mname]
+        indeco = set(id(x) for d in w.decorator_list for x in ast.walk(d))
+        uses = [x for x in ast.walk(w) if isinstance(x, ast.Name) and
+                x.id == mname and id(x) not in indeco]
+        if len(calls) != 1 or len(uses) != 1:
+            continue
+        c = calls[0]
+        pos = [x for x in c.args if not isinstance(x, ast.Starred)]
+        star = [x for x in c.args if isinstance(x, ast.Starred)]
+        if [getattr(x, 'id', None) for x in pos] != want or \
+                len(star) != 1 or getattr(star[0].value, 'id', None) != \
+                a.vararg.arg or len(c.keywords) != 1 or \
+                c.keywords[0].arg is not None or getattr(
+                    c.keywords[0].value, 'id', None) != a.kwarg.arg:
+            continue
+        # the call is the value of a `return` statement
+        ret = [x for x in ast.walk(w) if isinstance(x, ast.Return) and
+               x.value is c]
+        if len(ret) != 1:
+            continue
+        # no loop around it (a `break` / `continue` of the body would bind
+        # differently) and the wrapper binds no other names the body may use
+        okk = True
+        for x in ast.walk(w):
+            if isinstance(x, (ast.For, ast.While, ast.Lambda, ast.Yield,
+                              ast.YieldFrom, ast.Global, ast.Nonlocal)):
+                okk = False
+        if okk:
+            decos[st.name] = (st, w, ret[0], want)
+    if not decos:
+        return
+    used = set()
+    for node in ast.walk(tree):
+        if not isinstance(node, ast.FunctionDef):
+            continue
+        names = [d.id if isinstance(d, ast.Name) else None
+                 for d in node.decorator_list]
+        hit = [n for n in names if n in decos]
+        if len(hit) != 1 or node.name in decos:
+            continue
+        dname = hit[0]
+        st, w, ret, want = decos[dname]
+        fa = node.args
+        if want and not (fa.args and True):
+            continue
+        # locals the wrapper binds must not clash with the function's names
+        wnames = set(x.id for x in ast.walk(w) if isinstance(x, ast.Name)
+                     and isinstance(x.ctx, ast.Store))
+        fnames = set(x.id for x in ast.walk(node) if isinstance(x, ast.Name))
+        fnames |= set(x.arg for x in ast.walk(fa) if isinstance(x, ast.arg))
+        if wnames & fnames:
+            continue
+        new_body = copy.deepcopy(w.body)
+        holder = ast.Module(body=new_body, type_ignores=[])
+        target = None
+        for x in ast.walk(holder):
+            if isinstance(x, ast.Return) and isinstance(
+                    x.value, ast.Call) and isinstance(
+                        x.value.func, ast.Name) and \
+                    x.value.func.id == st.args.args[0].arg:
+                target = x
+        if target is None:
+            continue
+        # the wrapper's receiver name -> the function's first parameter
+        if want:
+            first = fa.args[0].arg
+            for x in ast.walk(holder):
+                if isinstance(x, ast.Name) and x.id == want[0]:
+                    x.id = first
+        placed = False
+        for x in ast.walk(holder):
+            for fld in ('body', 'orelse', 'finalbody'):
+                blk = getattr(x, fld, None)
+                if isinstance(blk, list) and any(b is target for b in blk):
+                    k = [i for i, b in enumerate(blk) if b is target][0]
+                    doc = node.body[:1] if node.body and isinstance(
+                        node.body[0], ast.Expr) and isinstance(
+                            node.body[0].value, ast.Constant) else []
+                    blk[k:k + 1] = node.body[len(doc):] or [ast.Pass()]
+                    placed = True
+        if not placed:
+            continue
+        for x in ast.walk(holder):
+            if isinstance(x, (ast.stmt, ast.expr)) and not hasattr(
+                    x, 'lineno'):
+                ast.copy_location(x, node)
+        node.body = (node.body[:1] if node.body and isinstance(
+            node.body[0], ast.Expr) and isinstance(
+                node.body[0].value, ast.Constant) else []) + holder.body
+        node.decorator_list = [d for d in node.decorator_list
+                               if not (isinstance(d, ast.Name)
+                                       and d.id == dname)]
+        ast.fix_missing_locations(node)
+        used.add(dname)
+    # a decorator nothing names any more is not part of the program
+    for dname in used:
+        st = decos[dname][0]
+        if not any(isinstance(x, ast.Name) and x.id == dname
+                   for x in ast.walk(tree) if x is not st and not any(
+                       x is y for y in ast.walk(st))):
+            tree.body = [b for b in tree.body if b is not st]
+
+
 class SrcDB(object):
     def __init__(self, repo=REPO, pkg=PKG, trees=None):
         self.repo = repo
@@ -187,6 +331,9 @@ class SrcDB(object):
                                             path=rel(path))
                 m = Module(name, path, is_pkg, tree, src)
                 self.modules[name] = m
+        if self.trees is None:
+            for m in self.modules.values():
+                expand_wrapper_decorators(m.tree)
         for m in self.modules.values():
             self._index_module(m)
 
